@@ -2,7 +2,7 @@ import os
 from contextlib import contextmanager
 from typing import Type, Tuple, Dict, Set
 
-from yaml import SafeLoader, BaseLoader, SequenceNode
+from yaml import SafeLoader, BaseLoader, SequenceNode, MappingNode
 from yaml.constructor import ConstructorError
 from entrypoints import get_group_all as get_entrypoints
 from toposort import toposort_flatten
@@ -20,24 +20,41 @@ from ...interfaces._partial import Partial
 class COBalDLoader(SafeLoader):
     """Loader with access to COBalD configuration constructors"""
 
-    def flatten_mapping(self, node):
-        # PyYAML merges the content of ``<<`` values without looking at their
-        # tags: a tag that cannot be constructed must be rejected here as well
-        for key_node, value_node in node.value:
-            if key_node.tag == "tag:yaml.org,2002:merge":
-                merged = [value_node]
-                if isinstance(value_node, SequenceNode):
-                    merged.extend(value_node.value)
-                for merged_node in merged:
-                    if merged_node.tag not in self.yaml_constructors:
-                        raise ConstructorError(
-                            None,
-                            None,
-                            "could not determine a constructor for the tag %r"
-                            % merged_node.tag,
-                            merged_node.start_mark,
-                        )
-        super().flatten_mapping(node)
+    def construct_document(self, node):
+        # PyYAML does not look at the tag of every node: values merged via ``<<``,
+        # the items of ``!!omap``/``!!pairs`` and the ``=`` value of a scalar are
+        # used as they are. Reject tags that cannot be constructed up front.
+        self._check_tags(node)
+        return super().construct_document(node)
+
+    def _check_tags(self, root):
+        key_only = {"tag:yaml.org,2002:merge", "tag:yaml.org,2002:value"}
+        pending, checked = [(root, False)], set()
+        while pending:
+            node, is_key = pending.pop()
+            if id(node) in checked:
+                continue
+            checked.add(id(node))
+            if not (
+                node.tag in self.yaml_constructors
+                or (is_key and node.tag in key_only)
+                or any(
+                    prefix is None or node.tag.startswith(prefix)
+                    for prefix in self.yaml_multi_constructors
+                )
+            ):
+                raise ConstructorError(
+                    None,
+                    None,
+                    "could not determine a constructor for the tag %r" % node.tag,
+                    node.start_mark,
+                )
+            if isinstance(node, SequenceNode):
+                pending.extend((item, False) for item in node.value)
+            elif isinstance(node, MappingNode):
+                for key_node, value_node in node.value:
+                    pending.append((key_node, True))
+                    pending.append((value_node, False))
 
 
 def add_constructor_plugins(entry_point_group: str, loader: Type[BaseLoader]) -> None:
